@@ -272,7 +272,11 @@ def run_case(case: dict[str, Any]) -> dict[str, Any]:
         if case["cancel"] is not None:
             idx, at = case["cancel"]
             loop.call_later(case["callers"][idx]["start"] + at, tasks[idx].cancel)
-        done, pending = await asyncio.wait(tasks, timeout=120)
+        # every attempt may legitimately last the silence limit (20 s) when the ECU goes quiet behind a ResponsePending, and the
+        # callers are served one after the other: the budget for "everybody is done" grows with the amount of work
+        budget = 120 + 25 * sum(len(c.get("ops") or ["read"]) * (c["max_retry"] + 1) for c in case["callers"])
+        state["budget"] = budget
+        done, pending = await asyncio.wait(tasks, timeout=budget)
         state["unfinished"] = sorted(t.get_name() for t in pending)
         for t in pending:
             t.cancel()
@@ -389,7 +393,7 @@ def check(case: dict[str, Any]) -> list[tuple[str, str]]:
                 break
     # progress
     if r["state"].get("unfinished"):
-        out.append(("C05/no-progress", f"callers {r['state']['unfinished']} did not finish within 120 virtual seconds; results={r['results']}"))
+        out.append(("C05/no-progress", f"callers {r['state']['unfinished']} did not finish within {r['state'].get('budget', 120)} virtual seconds; results={r['results']}"))
     for name in names:
         if name not in r["results"] and name not in (r["state"].get("unfinished") or []):
             out.append(("C05/caller-vanished", f"{name} has no result"))
